@@ -674,3 +674,35 @@ def tree_decl(rng, did, n=6, p_async=0.85):
     ids = [p['id'] for p in provs]
     rng.shuffle(ids)
     return {'id': did, 'injector': 'Init_' + did, 'ret': 'T%d' % n, 'types': types, 'providers': provs, 'layout': ids, 'planted': None}
+
+
+def sources_decl(rng, did, p_fallible=0.5):
+    """Several input-free sources (2-4 Async, 1-2 synchronous), each fallible or not; a few middle providers; a sink that
+    consumes everything left over.  Declaration order shuffled."""
+    types = {}
+    provs = []
+    produced = []
+    k = [0]
+
+    def add(req, is_async, fallible):
+        i = k[0]
+        k[0] += 1
+        types['T%d' % i] = {'form': rng.choice(['ptr', 'val'])}
+        provs.append({'id': 'P%d' % i, 'kind': 'fn', 'requires': req, 'provides': [['T%d' % i]], 'async': is_async,
+                      'fallible': fallible, 'wrap': 'async-bind', 'struct': ''})
+        produced.append('T%d' % i)
+        return 'T%d' % i
+    srcs = []
+    for _ in range(rng.randint(2, 4)):
+        srcs.append(add([], True, rng.random() < p_fallible))
+    for _ in range(rng.randint(1, 2)):
+        srcs.append(add([], False, rng.random() < p_fallible))
+    for _ in range(rng.randint(0, 3)):
+        add(rng.sample(produced, rng.randint(1, min(2, len(produced)))), rng.random() < 0.5, rng.random() < p_fallible * 0.6)
+    consumed = {r for p in provs for r in p['requires']}
+    loose = [t for t in produced if t not in consumed]
+    rng.shuffle(loose)
+    sink = add(loose[:7], rng.random() < 0.2, rng.random() < p_fallible * 0.4)
+    ids = [p['id'] for p in provs]
+    rng.shuffle(ids)
+    return {'id': did, 'injector': 'Init_' + did, 'ret': sink, 'types': types, 'providers': provs, 'layout': ids, 'planted': None}
